@@ -65,13 +65,13 @@ mod slow {
     }
 
     #[derive(Clone, Copy, Debug, PartialEq, Eq, Hash)]
-    enum Cl {
+    pub enum Cl {
         Sync,
         Async,
         Ws,
     }
     impl Cl {
-        fn name(&self) -> &'static str {
+        pub fn name(&self) -> &'static str {
             match self {
                 Cl::Sync => "Client",
                 Cl::Async => "AsyncClient",
@@ -97,7 +97,7 @@ mod slow {
         long_stalls_ms: Vec<u64>,
     }
 
-    enum AnyClient {
+    pub enum AnyClient {
         Sync(Client),
         Async(AsyncClient),
         Ws(WebSocketClient),
